@@ -19,8 +19,10 @@ import sys
 import time
 
 ROOT = os.path.dirname(os.path.dirname(os.path.abspath(__file__)))
-EVID_DIR = os.path.join(ROOT, "evidence")
-REPLAY_DIR = os.path.join(ROOT, "replays")
+# the two overrides exist for runs against scratch copies (mutants/, seeded/), which must not
+# overwrite the evidence of the real tree
+EVID_DIR = os.environ.get("EGMC_EVIDENCE_DIR") or os.path.join(ROOT, "evidence")
+REPLAY_DIR = os.environ.get("EGMC_REPLAY_DIR") or os.path.join(ROOT, "replays")
 KNOWN = os.path.join(ROOT, "known_findings.json")
 
 
@@ -79,7 +81,7 @@ class Report:
             self.add(fp, rec, n)
 
     # ---------------------------------------------------------------- finishing
-    def finish(self, confirm=None):
+    def finish(self, confirm=None, min_repro=2, tries=2):
         """
         confirm: callable(record) -> bool; re-executes the record without the
         explorer.  A violation is only reported if it reproduces twice.
@@ -98,13 +100,13 @@ class Report:
             rec["property"] = self.prop
             rec["fingerprint"] = fp
             if confirm is not None:
-                r1 = confirm(rec)
-                r2 = confirm(rec)
-                if not (r1 and r2):
+                rs = [bool(confirm(rec)) for _ in range(tries)]
+                if sum(rs) < min_repro:
                     raise HarnessError(
                         f"violation {fp!r} of {self.prop} did not reproduce on replay "
-                        f"({r1}, {r2}); record={json.dumps(jsonable(rec))[:2000]}"
+                        f"({rs}); record={json.dumps(jsonable(rec))[:2000]}"
                     )
+                rec["replays_reproduced"] = f"{sum(rs)}/{len(rs)}"
             h = hashlib.blake2b(fp.encode(), digest_size=5).hexdigest()
             path = os.path.join(REPLAY_DIR, f"{self.prop}-{h}.json")
             with open(path, "w") as f:
